@@ -135,7 +135,19 @@ fn targeted(rng: &mut Rng, fr: &FastRef, slots: usize, open: &mut Vec<(u8, Vec<u
         }
     };
     let fresh_id = |rng: &mut Rng| -> u8 { if slots1 == 255 { [0u8, 255, 1, 254][rng.below(4)] } else { rng.below(8) as u8 } };
-    match rng.below(24) {
+    match rng.below(25) {
+        24 => {
+            // a first fragment without payload whose total length is SMALLER than protocol type + label (accepted: the
+            // mismatch only shows at the end fragment), registered as an open train so that its end fragment follows
+            let id = fresh_id(rng);
+            let lt = [0u8, 1][rng.below(2)];
+            let wl: Vec<u8> = if lt == 0 { lab6.to_vec() } else { lab3.to_vec() };
+            let total = 1 + rng.below(1 + wl.len()) as u16;
+            open.retain(|o| (o.0 as usize) % slots1 != (id as usize) % slots1);
+            open.push((id, vec![], total, 0x0800, wl.clone()));
+            OPEN_PDU.with(|m| m.borrow_mut().insert(id, vec![]));
+            (mk_first(lt, &wl, id, total, 0x0800, &[]), "first-total-below-type-and-label")
+        }
         0 => (mk_complete(0, &lab6, 0x0800, &small(rng, BASE)), "complete-valid"),
         1 => (mk_complete(1, &lab3, 0x0800, &small(rng, BASE)), "complete-valid"),
         2 => (mk_complete(2, &[], 0x0800, &small(rng, BASE)), "complete-valid"),
